@@ -171,8 +171,11 @@ protected:
 
     uint rule;
 
-    // The VByte is firstly extracted
-    while (read < 2) {
+    // The VByte is firstly extracted: two symbols at least, and up to its
+    // closing byte (the first one with the highest bit set)
+    bool closed = false;
+    while ((read < 2) || !closed) {
+      uint before = read;
       rule = decodeSymbol();
 
       if (rule >= rp->terminals)
@@ -181,6 +184,9 @@ protected:
         vb[read] = (uchar)rule;
         read++;
       }
+
+      for (uint i = before; (i < read) && !closed; i++)
+        closed = ((vb[i] & 0x80) != 0);
     }
 
     uint advanced = VByte::decode(&lenPrefix, vb);
